@@ -1314,8 +1314,17 @@ func preprocessStylesheet(deviceMediaType, baseUrl string, stylesheetRules []pa.
 						url = str.Value
 					case pa.String:
 						url = str.Value
+					case pa.FunctionBlock: // url("...") with a quoted string
+						if name, args := pa.ParseFunction(str); name == "url" && len(args) == 1 {
+							if arg, ok := args[0].(pa.String); ok {
+								url = arg.Value
+							}
+						}
 					}
 				} else {
+					continue
+				}
+				if url == "" { // no usable URL
 					continue
 				}
 				media := parseMediaQuery(tokens[1:])
